@@ -116,5 +116,7 @@ class Linter:
     ) -> list[Violation]:
         """Filter violations by rule names."""
         if rules:
-            return [v for v in violations if v.rule_id in rules]
+            # A rule name is either a full rule id ("nesting.excessive-depth") or the
+            # linter it belongs to ("nesting"), as used throughout the documentation
+            return [v for v in violations if v.rule_id in rules or v.rule_id.split(".")[0] in rules]
         return violations
